@@ -316,3 +316,15 @@ MUTANTS += [
     {"name": "c13-result-timestamp-utc", "checks": ["C13"],
      "edits": [(P, "                exception=None,\n                timestamp=datetime.now(),", "                exception=None,\n                timestamp=datetime.utcnow(),")]},
 ]
+# dimensions added after seeding round 8: one-shot faults, queue inspection, connect twice
+MUTANTS += [
+    {"name": "c16-ack-flag-before-broker-call", "checks": ["C16"],
+     "edits": [("repid/message.py", "        await self._connection.message_broker.ack(self._key)\n\n        self.__read_only = True",
+                                    "        self.__read_only = True\n        await self._connection.message_broker.ack(self._key)")]},
+    {"name": "c07-bucket-lookup-error-ignored", "checks": ["C07"],
+     "edits": [(P, "            bucket = await self._conn._ab.get_bucket(\n                _ArgsBucketInMessageId.deconstruct(initial_payload),\n            )\n",
+                   "            try:\n                bucket = await self._conn._ab.get_bucket(\n                    _ArgsBucketInMessageId.deconstruct(initial_payload),\n                )\n            except Exception:  # noqa: BLE001\n                bucket = None\n")]},
+    {"name": "c19-overdue-from-delay-until", "checks": ["C19"],
+     "edits": [(PA, "        return datetime.now(tz=self.timestamp.tzinfo) > self.timestamp + self.ttl",
+                    "        return datetime.now(tz=self.timestamp.tzinfo) > max(self.timestamp, self.delay.delay_until or self.timestamp) + self.ttl")]},
+]
